@@ -17,7 +17,7 @@
    all structured rules (reductions, gathers, contractions, linalg, fft). *)
 From Coq Require Import Reals List Ring.
 From Coquelicot Require Import Coquelicot.
-From AG Require Import RealPrelude ScalarRules VSpace VSpaceProof Broadcast.
+From AG Require Import RealPrelude ScalarRules VSpace VSpaceProof Broadcast MatMul.
 From AGGen Require Import GenRules.
 Local Open Scope R_scope.
 
@@ -85,6 +85,21 @@ Theorem C01_sum_rule_is_adjoint :
       /\ length (broadcast_steps K ss g) = length x.
 Proof. exact sum_rule_adjoint. Qed.
 Print Assumptions C01_sum_rule_is_adjoint.
+
+(* dot / matmul on matrices (1-D operands are rows / columns): the registered VJPs G B^T and A^T G are the
+   adjoints of the two partial maps, for all sizes, over any commutative ring *)
+Theorem C01_dot_rules_are_adjoints :
+  forall (K : Type) (k0 k1 : K) (kadd kmul ksub : K -> K -> K) (kopp : K -> K),
+    ring_theory k0 k1 kadd kmul ksub kopp eq ->
+    forall m n p (G A B dA dB : nat -> nat -> K),
+      pair K k0 kadd kmul m p G (mm K k0 kadd kmul n dA B) = pair K k0 kadd kmul m n (mm K k0 kadd kmul p G (tr K B)) dA
+      /\ pair K k0 kadd kmul m p G (mm K k0 kadd kmul n A dB) = pair K k0 kadd kmul n p (mm K k0 kadd kmul m (tr K A) G) dB.
+Proof.
+  intros K k0 k1 kadd kmul ksub kopp HR m n p G A B dA dB.
+  exact (conj (dot_adjoint_first K k0 k1 kadd kmul ksub kopp HR m n p G dA B)
+              (dot_adjoint_second K k0 k1 kadd kmul ksub kopp HR m n p G A dB)).
+Qed.
+Print Assumptions C01_dot_rules_are_adjoints.
 
 Theorem C01_maximum_generalised_gradient :
   (forall x y, y < x ->
